@@ -1,6 +1,535 @@
-"""C15 agent-level cases (stub; filled in below)."""
-KINDS = set()
+"""C15 agent-level cases: real agents (DQN / PPO / DDPG, IPPO / MADDPG / MATD3).
+
+kinds
+  agent_batch  single-agent get_action on a permuted batch vs the same observations one at a time
+  ma_route     multi-agent get_action: which (agent, env) observation produced the output reported for (agent, env)
+  ma_ippo_prep IPPO.preprocess_observation: per shared id, the batch handed to the shared policy
+  ma_assemble  assemble_homogeneous_outputs / disassemble_homogeneous_outputs on tagged arrays
+  ma_stack     stack_critic_observations on prepared observations
+(agent.preprocess_observation of single- and multi-agent algorithms is exercised through kind "prep" with an "algo" key.)
+"""
+from __future__ import annotations
+
+import itertools
+import json
+
+import numpy as np
+import torch
+from gymnasium import spaces
+
+from vlib import Violation, coq_Q
+from c15_common import (build_space, leaf_array, space_shape, net_input_shape, tensor1, coq_leaf, coq_tq, coq_nats, coq_qs,
+                        is_md_rank3, TOL_NORM, uses_inexact_norm)
+
+KINDS = {"agent_batch", "ma_route", "ma_ippo_prep", "ma_assemble", "ma_stack"}
+NOMATCH = 4999
+
+VEC = {"t": "box", "shape": [3], "dtype": "float32", "low": -1, "high": 1}
+IMG = {"t": "box", "shape": [2, 6, 6], "dtype": "uint8", "low": 0, "high": 255}
+D5 = {"t": "discrete", "n": 5}
+MD = {"t": "md", "nvec": [2, 3]}
+MB = {"t": "mb", "n": 3}
+S0 = {"t": "box", "shape": [], "dtype": "float32", "low": -1, "high": 1}
+DCT = {"t": "dict", "fields": [[0, {"t": "discrete", "n": 3}], [1, {"t": "box", "shape": [2], "dtype": "float32", "low": -1, "high": 1}]]}
+
+_cache = {}
 
 
+def group_of(name):
+    return name.rsplit("_", 1)[0]
+
+
+def shared_ids(names):
+    out = []
+    for n in names:
+        if group_of(n) not in out:
+            out.append(group_of(n))
+    return out
+
+
+def get_agent(algo, space_spec, names=None, normalize=True):
+    key = json.dumps([algo, space_spec, names, normalize], sort_keys=True)
+    if key in _cache:
+        return _cache[key]
+    torch.manual_seed(12345)
+    np.random.seed(12345)
+    sp = build_space(space_spec)
+    if algo == "DQN":
+        from agilerl.algorithms.dqn import DQN
+        a = DQN(sp, spaces.Discrete(3), normalize_images=normalize)
+    elif algo == "PPO":
+        from agilerl.algorithms.ppo import PPO
+        a = PPO(sp, spaces.Discrete(3), normalize_images=normalize)
+    elif algo == "DDPG":
+        from agilerl.algorithms.ddpg import DDPG
+        a = DDPG(sp, spaces.Box(-1, 1, (2,)), normalize_images=normalize)
+    elif algo == "TD3":
+        from agilerl.algorithms.td3 import TD3
+        a = TD3(sp, spaces.Box(-1, 1, (2,)), normalize_images=normalize)
+    elif algo == "CQN":
+        from agilerl.algorithms.cqn import CQN
+        a = CQN(sp, spaces.Discrete(3), normalize_images=normalize)
+    elif algo == "IPPO":
+        from agilerl.algorithms.ippo import IPPO
+        a = IPPO([sp] * len(names), [spaces.Discrete(3)] * len(names), list(names), normalize_images=normalize)
+    elif algo == "MADDPG":
+        from agilerl.algorithms.maddpg import MADDPG
+        a = MADDPG([sp] * len(names), [spaces.Box(-1, 1, (2,))] * len(names), list(names), normalize_images=normalize)
+    elif algo == "MATD3":
+        from agilerl.algorithms.matd3 import MATD3
+        a = MATD3([sp] * len(names), [spaces.Box(-1, 1, (2,))] * len(names), list(names), normalize_images=normalize)
+    else:
+        raise ValueError(algo)
+    _cache[key] = a
+    return a
+
+
+# ------------------------------------------------------------------ generation
 def generate(tier, rng):
-    return []
+    thorough = tier == "thorough"
+    cases = []
+    # agent.preprocess_observation (method level) — compared with the model like the module-level function
+    leads = [[], [1], [3], [2, 2]] if not thorough else [[], [1], [2], [3], [1, 1], [1, 3], [2, 1], [2, 3]]
+    for algo in ["DQN", "PPO", "DDPG"]:
+        for sp in [VEC, IMG, D5, {"t": "discrete", "n": 1}, MD, MB, S0]:
+            for lead in leads:
+                for nz in ((True, False) if sp is IMG else (True,)):
+                    cases.append({"kind": "prep", "algo": algo, "space": sp, "lead": lead, "input": "numpy", "normalize": nz, "pat": 1})
+        for lead in leads:
+            cases.append({"kind": "prep", "algo": algo, "space": DCT, "lead": lead, "input": "numpy", "normalize": True, "pat": 1,
+                          "order": [1, 0]})
+    # MultiAgentRLAlgorithm.preprocess_observation: the observation dict is handled agent by agent
+    names3 = ["a_0", "a_1", "b_0"]
+    for algo in ["MADDPG", "MATD3"]:
+        for sp in [VEC, D5, MD, IMG]:
+            for lead in [[], [2], [1]]:
+                for order in ([0, 1, 2], [2, 0, 1]):
+                    cases.append({"kind": "prep", "algo": algo, "names": names3, "lead": lead, "input": "numpy",
+                                  "normalize": True, "pat": 2, "order": order,
+                                  "space": {"t": "dict", "fields": [[i, sp] for i in range(3)]}})
+    # single-agent: batch vs one at a time, every permutation of a 3-element batch
+    perms = list(itertools.permutations(range(3)))
+    for algo in ["DQN", "PPO", "DDPG", "TD3", "CQN"]:
+        for sp in [VEC, IMG, D5, MD, S0, DCT] + ([MB] if thorough else []):
+            for perm in (perms if thorough or sp is VEC else perms[::2]):
+                cases.append({"kind": "agent_batch", "algo": algo, "space": sp, "perm": list(perm)})
+    # multi-agent routing through shared policies / per-agent actors
+    groupings = [["a_0", "a_1"], ["a_0", "a_1", "b_0"], ["a_0", "b_0", "a_1"], ["a_0", "a_1", "a_2"], ["a_0", "b_0"]]
+    if thorough:
+        groupings += [["a_0", "b_0", "b_1", "a_1"], ["x_0"], ["a_0", "b_0", "c_0"]]
+    for algo in ["IPPO", "MADDPG", "MATD3"]:
+        for names in groupings:
+            n = len(names)
+            orders = [list(range(n)), list(reversed(range(n)))]
+            if n == 3:
+                orders += [[1, 0, 2], [2, 0, 1]] if not thorough else [list(p) for p in itertools.permutations(range(3))][1:5]
+            for E in ([0, 1, 2, 3] if algo == "IPPO" or thorough else [0, 2]):
+                for order in orders:
+                    for sp in ([VEC] if not thorough else [VEC, DCT]):
+                        cases.append({"kind": "ma_route", "algo": algo, "names": names, "E": E, "order": order, "space": sp})
+    for names in groupings:
+        n = len(names)
+        for E in [0, 1, 2]:
+            for order in [list(range(n)), list(reversed(range(n)))]:
+                for sp in [VEC, D5] + ([IMG, MD] if thorough else []):
+                    cases.append({"kind": "ma_ippo_prep", "names": names, "E": E, "order": order, "space": sp, "normalize": True})
+    for names in groupings:
+        n = len(names)
+        for E in [1, 2, 3]:
+            for w in [1, 2]:
+                for order in [list(range(n)), list(reversed(range(n)))]:
+                    cases.append({"kind": "ma_assemble", "names": names, "E": E, "width": w, "order": order})
+    for algo in ["MADDPG"] + (["MATD3"] if thorough else []):
+        for names in [["a_0", "a_1"], ["a_0", "a_1", "b_0"]]:
+            for sp in [VEC, IMG, D5, DCT]:
+                for B in [1, 2, 3]:
+                    cases.append({"kind": "ma_stack", "algo": algo, "names": names, "space": sp, "B": B})
+    return cases
+
+
+# ------------------------------------------------------------------ helpers
+def _obs_for(space_spec, lead, pat):
+    """numpy observation of a (possibly Dict) space with the given leading dims"""
+    if space_spec["t"] == "dict":
+        return {f"k{k}": leaf_array(l, lead, pat + k) for k, l in space_spec["fields"]}
+    return leaf_array(space_spec, lead, pat)
+
+
+def _row_of(space_spec, obs, lead, i):
+    B = int(np.prod(lead)) if lead else 1
+    if space_spec["t"] == "dict":
+        return {f"k{k}": obs[f"k{k}"].reshape((B,) + tuple(space_shape(l)))[i] for k, l in space_spec["fields"]}
+    return obs.reshape((B,) + tuple(space_shape(space_spec)))[i]
+
+
+def _take(space_spec, obs, idx):
+    if space_spec["t"] == "dict":
+        return {k: v[idx] for k, v in obs.items()}
+    return obs[idx]
+
+
+def _match(v, refs, tol=2e-5):
+    """index of the unique reference equal to v (within tol), else NOMATCH"""
+    hits = [t for t, r in refs.items() if r.shape == v.shape and np.allclose(r, v, rtol=0, atol=tol)]
+    return hits[0] if len(hits) == 1 else NOMATCH
+
+
+def _distinct(refs, gap=5e-4):
+    vals = list(refs.values())
+    for i in range(len(vals)):
+        for j in range(i + 1, len(vals)):
+            if vals[i].shape == vals[j].shape and np.max(np.abs(vals[i] - vals[j])) < gap:
+                return False
+    return True
+
+
+def _single_value(agent, algo, obs):
+    """deterministic per-observation report of a single-agent algorithm: (value-like vector, greedy action)"""
+    with torch.no_grad():
+        if algo == "DQN":
+            q = agent.actor(agent.preprocess_observation(obs)).cpu().numpy()
+            act = agent.get_action(obs, epsilon=0.0)
+            return q, np.asarray(act)
+        if algo == "CQN":                   # CQN.get_action evaluates the network in eval mode
+            agent.actor.eval()
+            q = agent.actor(agent.preprocess_observation(obs)).cpu().numpy()
+            agent.actor.train()
+            act = agent.get_action(obs, epsilon=0.0)
+            return q, np.asarray(act)
+        if algo == "PPO":
+            out = agent.get_action(obs)
+            return np.asarray(out[3]).reshape(-1, 1).astype(np.float64), None
+        if algo in ("DDPG", "TD3"):
+            act = agent.get_action(obs, training=False)
+            return np.asarray(act), np.asarray(act)
+    raise ValueError(algo)
+
+
+# ------------------------------------------------------------------ implementation runs
+def run_impl(case):
+    return {"agent_batch": run_batch, "ma_route": run_route, "ma_ippo_prep": run_ippo_prep, "ma_assemble": run_assemble,
+            "ma_stack": run_stack}[case["kind"]](case)
+
+
+def sp_tag(sp):
+    if sp["t"] == "box":
+        return "image" if len(sp["shape"]) == 3 else f"box-rank{len(sp['shape'])}"
+    return sp["t"]
+
+
+def run_batch(case):
+    try:
+        return _run_batch(case)
+    except RuntimeError as e:              # the network rejected the prepared batch
+        return {"err": type(e).__name__, "msg": str(e)[:200]}
+
+
+def _run_batch(case):
+    algo, sp, perm = case["algo"], case["space"], case["perm"]
+    agent = get_agent(algo, sp)
+    n = len(perm)
+    for pat in range(1, 6):
+        base = _obs_for(sp, [n], pat)
+        refs, acts = {}, {}
+        for i in range(n):
+            v, a = _single_value(agent, algo, _row_of(sp, base, [n], i))
+            refs[i] = np.asarray(v, dtype=np.float64).reshape(-1)
+            acts[i] = a
+        if _distinct(refs):
+            break
+    else:
+        return {"degenerate": True}
+    batch = _take(sp, base, list(perm))
+    v, a = _single_value(agent, algo, batch)
+    v = np.asarray(v, dtype=np.float64).reshape(n, -1)
+    match = [_match(v[i], refs) for i in range(n)]
+    act_ok = True
+    if a is not None and algo in ("DQN", "CQN"):
+        act_ok = all(int(np.asarray(a).reshape(-1)[i]) == int(np.asarray(acts[perm[i]]).reshape(-1)[0]) for i in range(n))
+    return {"match": match, "actions_consistent": bool(act_ok), "pat": pat}
+
+
+def _ma_obs(case, pat0=1):
+    names, E, sp = case["names"], case["E"], case["space"]
+    lead = [E] if E else []
+    return {i: _obs_for(sp, lead, pat0 + 3 * i) for i in range(len(names))}, lead
+
+
+def run_route(case):
+    algo, names, E, order, sp = case["algo"], case["names"], case["E"], case["order"], case["space"]
+    agent = get_agent(algo, sp, names)
+    nE = E if E else 1
+    space = build_space(sp)
+    from agilerl.utils.algo_utils import preprocess_observation as P
+    for pat0 in range(1, 6):
+        per_agent, lead = _ma_obs(case, pat0)
+        # reference reports, one observation at a time, straight from the networks
+        refs = {}          # IPPO: per group {tag: value}; MADDPG: per actor index {tag: action}
+        with torch.no_grad():
+            if algo == "IPPO":
+                for gi, g in enumerate(agent.shared_agent_ids):
+                    critic = agent.critics[gi]
+                    critic.eval()
+                    refs[g] = {}
+                    for a, nm in enumerate(names):
+                        if group_of(nm) != g:
+                            continue
+                        for e in range(nE):
+                            o = P(_row_of(sp, per_agent[a], lead, e), space)
+                            refs[g][a * 100 + e] = critic(o).squeeze(-1).cpu().numpy().astype(np.float64).reshape(-1)
+            else:
+                for ai in range(len(names)):
+                    actor = agent.actors[ai]
+                    actor.eval()
+                    refs[ai] = {}
+                    for a in range(len(names)):
+                        for e in range(nE):
+                            o = P(_row_of(sp, per_agent[a], lead, e), space)
+                            refs[ai][a * 100 + e] = actor(o).cpu().numpy().astype(np.float64).reshape(-1)
+                    actor.train()
+        if all(_distinct(r) for r in refs.values()):
+            break
+    else:
+        return {"degenerate": True}
+    obs = {names[a]: per_agent[a] for a in order}
+    if algo == "IPPO":
+        out = agent.get_action(obs)
+        values = out[3]
+        route = []
+        for g in agent.shared_agent_ids:
+            for a, nm in enumerate(names):
+                if group_of(nm) != g:
+                    continue
+                v = np.asarray(values[nm], dtype=np.float64).reshape(nE, -1)
+                route.append([a, [_match(v[e], refs[g]) for e in range(nE)]])
+        shapes_ok = all(np.asarray(out[0][nm]).shape[0] == nE for nm in names)
+    else:
+        out = agent.get_action(obs, training=False)
+        acts = out[0]
+        route = []
+        for a, nm in enumerate(names):
+            v = np.asarray(acts[nm], dtype=np.float64).reshape(nE, -1)
+            route.append([a, [_match(v[e], refs[a]) for e in range(nE)]])
+        shapes_ok = all(np.asarray(acts[nm]).shape[0] == nE for nm in names)
+    return {"route": route, "shapes_ok": bool(shapes_ok)}
+
+
+def run_ippo_prep(case):
+    names, E, order, sp = case["names"], case["E"], case["order"], case["space"]
+    agent = get_agent("IPPO", sp, names, case["normalize"])
+    per_agent, lead = _ma_obs(case)
+    obs = {names[a]: per_agent[a] for a in order}
+    try:
+        out = agent.preprocess_observation(obs)
+    except Exception as e:
+        return {"err": type(e).__name__, "msg": str(e)[:200]}
+    groups = []
+    for gi, g in enumerate(shared_ids(names)):
+        t = out[g]
+        groups.append([gi, tensor1(t)])
+    return {"ok": groups}
+
+
+def run_assemble(case):
+    names, E, w, order = case["names"], case["E"], case["width"], case["order"]
+    agent = get_agent("IPPO", VEC, names)
+    vals = {a: (a * 1000 + np.arange(E * w, dtype=np.float32).reshape(E, w) * 7 + 1) for a in range(len(names))}
+    outputs = {names[a]: vals[a].copy() for a in order}
+    homo = agent.assemble_homogeneous_outputs(outputs, E)
+    assembled = [[gi, [int(x) for x in np.asarray(homo[g]).shape], [float(x) for x in np.asarray(homo[g]).reshape(-1)]]
+                 for gi, g in enumerate(shared_ids(names))]
+    back = agent.disassemble_homogeneous_outputs({g: np.array(v, copy=True) for g, v in homo.items()}, E)
+    backl = [[a, [int(x) for x in np.asarray(back[nm]).shape], [float(x) for x in np.asarray(back[nm]).reshape(-1)]]
+             for a, nm in enumerate(names)]
+    return {"assembled": assembled, "back": backl}
+
+
+def run_stack(case):
+    algo, names, sp, B = case["algo"], case["names"], case["space"], case["B"]
+    agent = get_agent(algo, sp, names)
+    per_agent = {i: _obs_for(sp, [B], 1 + 3 * i) for i in range(len(names))}
+    prepared = agent.preprocess_observation({names[a]: per_agent[a] for a in range(len(names))})
+    out = agent.stack_critic_observations(prepared)
+    def members(x):
+        if isinstance(x, dict):
+            return [[int(str(k)[1:]), tensor1(v)] for k, v in x.items()]
+        return [[0, tensor1(x)]]
+    ins = [members(prepared[nm]) for nm in names]
+    return {"inputs": ins, "out": members(out)}
+
+
+# ------------------------------------------------------------------ Coq terms
+def _b(x):
+    return "true" if x else "false"
+
+
+def _pairs(l):
+    return "[" + "; ".join(f"({a}, {b})" for a, b in l) + "]"
+
+
+def _groups(names):
+    sh = shared_ids(names)
+    return [(a, sh.index(group_of(nm))) for a, nm in enumerate(names)]
+
+
+def _route_expected(case):
+    names, E = case["names"], case["E"]
+    nE = E if E else 1
+    if case["algo"] == "IPPO":
+        return [[a, [a * 100 + e for e in range(nE)]] for g in shared_ids(names) for a, nm in enumerate(names) if group_of(nm) == g]
+    return [[a, [a * 100 + e for e in range(nE)]] for a in range(len(names))]
+
+
+def coq_term(case, obs):
+    k = case["kind"]
+    if obs.get("degenerate") or (k == "agent_batch"):
+        return None
+    if k == "agent_batch":
+        return None                      # oracle only (the network itself is not modelled; see batch_independent)
+    if k == "ma_route":
+        names, E, order = case["names"], case["E"], case["order"]
+        nE = E if E else 1
+        od = "[" + "; ".join(f"({a}, {coq_nats([a * 100 + e for e in range(nE)])})" for a in order) + "]"
+        seen = "[" + "; ".join(f"({a}, {coq_nats(tags)})" for a, tags in obs["route"]) + "]"
+        fixed = _b(obs["route"] == _route_expected(case))      # repaired semantics iff the tree routes every row to its owner
+        ids = coq_nats(range(len(names)))
+        if case["algo"] == "IPPO":
+            return f"check_ippo {fixed} {_pairs(_groups(names))} {ids} {nE} {od} {seen}"
+        return f"check_maddpg {fixed} {ids} {od} {seen}"
+    if k == "ma_ippo_prep":
+        names, E, order, sp = case["names"], case["E"], case["order"], case["space"]
+        per_agent, lead = _ma_obs(case)
+        od = "[" + "; ".join(f"({a}, {coq_tq(list(per_agent[a].shape), per_agent[a].reshape(-1).tolist())})" for a in order) + "]"
+        if "err" in obs:
+            seen = "None"
+            fixed = "false"
+        else:
+            rows = []
+            for gi, t in obs["ok"]:
+                b = t["shape"][0]
+                d = np.asarray(t["data"]).reshape(b, -1)
+                rows.append(f"({gi}, [" + "; ".join(coq_qs(r.tolist()) for r in d) + "])")
+            seen = "(Some [" + "; ".join(rows) + "])"
+            fixed = _b(_ippo_prep_in_agent_order(case, obs))
+        return (f"check_ippo_prep {fixed} false {_b(case['normalize'])} {_pairs(_groups(names))} {coq_nats(range(len(names)))} "
+                f"{coq_leaf(sp)} {od} {seen}")
+    if k == "ma_assemble":
+        names, E = case["names"], case["E"]
+        sh = shared_ids(names)
+        back = {a: d for a, _, d in obs["back"]}
+        terms = []
+        for gi, shape, flat in obs["assembled"]:
+            mem = [a for a, nm in enumerate(names) if group_of(nm) == sh[gi]]
+            ins = "[" + "; ".join(coq_qs((a * 1000 + np.arange(E * case["width"]) * 7 + 1).tolist()) for a in mem) + "]"
+            terms.append(f"check_assemble {ins} {coq_qs(flat)}")
+            terms.append(f"check_disassemble {len(mem)} {coq_qs(flat)} [" + "; ".join(coq_qs(back[a]) for a in mem) + "]")
+        return "(" + " && ".join(terms) + ")%bool"
+    if k == "ma_stack":
+        sp = case["space"]
+        leaves = dict((kk, l) for kk, l in sp["fields"]) if sp["t"] == "dict" else {0: sp}
+        terms = []
+        for kk, t in obs["out"]:
+            image = leaves[kk]["t"] == "box" and len(leaves[kk]["shape"]) == 3
+            ts = "[" + "; ".join(coq_tq(dict(m)[kk]["shape"], dict(m)[kk]["data"]) for m in obs["inputs"]) + "]"
+            terms.append(f"check_stack {_b(image)} {ts} (Some {coq_tq(t['shape'], t['data'])})")
+        return "(" + " && ".join(terms) + ")%bool"
+    return None
+
+
+def _ippo_prep_in_agent_order(case, obs):
+    """is every group's batch the concatenation of its agents' prepared rows in agent_ids order?"""
+    from agilerl.utils.algo_utils import preprocess_observation as P
+    names, sp = case["names"], case["space"]
+    space = build_space(sp)
+    per_agent, lead = _ma_obs(case)
+    for gi, t in obs["ok"]:
+        g = shared_ids(names)[gi]
+        want = np.concatenate([P(per_agent[a], space, normalize_images=case["normalize"]).numpy().astype(np.float64).reshape(-1)
+                               for a, nm in enumerate(names) if group_of(nm) == g])
+        if want.shape != np.asarray(t["data"]).shape or not np.allclose(want, np.asarray(t["data"]), atol=1e-6):
+            return False
+    return True
+
+
+# ------------------------------------------------------------------ oracle
+def oracle(case, obs):
+    k = case["kind"]
+    out = []
+    if obs.get("degenerate"):
+        return out
+    if k == "agent_batch":
+        if "err" in obs:
+            out.append(Violation("batch-independent", f"batch-raises:{case['algo']}:{sp_tag(case['space'])}",
+                                 f"{case['algo']}.get_action raised {obs['err']}: {obs['msg']} on a batch of 3 observations (or on one of them alone)"))
+        elif obs["match"] != case["perm"]:
+            out.append(Violation("batch-independent", f"batch:{case['algo']}:{sp_tag(case['space'])}",
+                                 f"{case['algo']}: the report for position i of the batch should be the report of observation {case['perm']} "
+                                 f"taken alone, found {obs['match']} ({NOMATCH} = equals none of them)"))
+        elif not obs["actions_consistent"]:
+            out.append(Violation("batch-independent", f"batch-action:{case['algo']}:{sp_tag(case['space'])}",
+                                 "greedy action in the batch differs from the greedy action of the same observation taken alone"))
+    elif k == "ma_route":
+        want = _route_expected(case)
+        if obs["route"] != want or not obs["shapes_ok"]:
+            names, order = case["names"], case["order"]
+            # is the dict order, restricted to each group (IPPO) / overall (MADDPG), different from agent_ids order?
+            if case["algo"] == "IPPO":
+                permuted = any([a for a in order if group_of(names[a]) == g] != [a for a in range(len(names)) if group_of(names[a]) == g]
+                               for g in shared_ids(names))
+            else:
+                permuted = order != list(range(len(names)))
+            sig = f"route:{case['algo']}:dict-order" if permuted else f"route:{case['algo']}:wrong"
+            out.append(Violation("agent-env-consistent", sig,
+                                 f"{case['algo']}.get_action with observation dict order {[names[a] for a in order]} (agent_ids {names}, "
+                                 f"{case['E']} envs): reported outputs come from (agent*100+env) {obs['route']}, expected {want}"))
+    elif k == "ma_assemble":
+        E, w = case["E"], case["width"]
+        for a, shape, flat in obs["back"]:
+            want = (a * 1000 + np.arange(E * w) * 7 + 1).astype(np.float64)
+            if shape[0] != E or not np.array_equal(np.asarray(flat), want):
+                out.append(Violation("disassemble-assemble", "assemble:roundtrip",
+                                     f"agent {a}: disassemble(assemble(x)) = {flat} with shape {shape}, expected {want.tolist()}"))
+                break
+    elif k == "ma_stack":
+        sp = case["space"]
+        leaves = dict((kk, l) for kk, l in sp["fields"]) if sp["t"] == "dict" else {0: sp}
+        for kk, t in obs["out"]:
+            image = leaves[kk]["t"] == "box" and len(leaves[kk]["shape"]) == 3
+            ins = [np.asarray(dict(m)[kk]["data"]).reshape(dict(m)[kk]["shape"]) for m in obs["inputs"]]
+            want = np.stack(ins, axis=2) if image else np.concatenate(ins, axis=1)
+            got = np.asarray(t["data"]).reshape(t["shape"]) if list(want.shape) == t["shape"] else None
+            if got is None or not np.array_equal(got, want):
+                out.append(Violation("critic-stack", f"stack:{'image' if image else 'vector'}",
+                                     f"stack_critic_observations: member {kk} has shape {t['shape']}, expected {list(want.shape)} with row b made of the agents' rows b"))
+    return out
+
+
+def nontrivial(case, obs):
+    if obs.get("degenerate"):
+        return False
+    k = case["kind"]
+    if k == "agent_batch":
+        return True
+    if k in ("ma_route", "ma_ippo_prep", "ma_assemble"):
+        return len(case["names"]) >= 2
+    return case["B"] >= 1 and len(case["names"]) >= 2
+
+
+def classify(case, obs):
+    k = case["kind"]
+    labs = [f"kind={k}"]
+    if "algo" in case:
+        labs.append(f"algo={case['algo']}")
+    if "names" in case:
+        sh = shared_ids(case["names"])
+        labs.append(f"agents={len(case['names'])}/groups={len(sh)}")
+    if "E" in case:
+        labs.append(f"envs={'unvectorised' if case['E'] == 0 else case['E']}")
+    if "order" in case and "names" in case:
+        labs.append("dict-order=" + ("agent_ids" if case["order"] == list(range(len(case["names"]))) else "permuted"))
+    if obs.get("degenerate"):
+        labs.append("degenerate-skipped")
+    if k == "agent_batch":
+        labs.append("space=" + sp_tag(case["space"]))
+        labs.append("result=" + ("raises" if "err" in obs else "ok"))
+    return labs
